@@ -217,6 +217,12 @@ def jobs(tier, seed):
             for s in split_job(j, bits):
                 s["params"]["fixed"] = dict(fixed, **s["params"]["fixed"])
                 out.append(s)
+    if not quick:
+        # histories of length 4 over a smaller pool (siblings, nesting, repetition, cache clearing)
+        pool4 = [("p_next", []), ("p_next", ["a"]), ("p_next", ["b"]), ("p_next", ["a", "b"]), ("p_next", ["a", "a"]), ("clear",)]
+        for kind, cname in plan:
+            out.append(dict(case=cname, params=dict(shape="G-FIN", kind=kind, ops=pool4, n=4, fixed={"0": 1, "1": 1, "2": 1, "3": 1, "4": 1, "5": 1}), cost=9, timeout=2400))
+            out.append(dict(case=cname, params=dict(shape="G-LIN", kind=kind, ops=pool4, n=4, fixed={"0": 1, "1": 1, "2": 1, "3": 1, "4": 1}), cost=9, timeout=2400))
     for sh in (["G-NU"] if quick else ["G-NU", "G-UC", "G-FIN", "G-NULL3"]):
         out += split_job(dict(case="transform_purity", params=dict(shape=sh)), [0, 1])
     for kind in ["EarleyLM", "EarleyLMRescaled", "BoolCFGLM", "Earley"] + ([] if quick else ["CKYLM", "IncrementalCKY"]):
